@@ -253,35 +253,36 @@ def job_model(d, tier):
         iso = m.isometrize(rnp.array([t * axes[i][k] for i in range(d) for k in range(d)], dtype=object).reshape(d, d).T)
         return m, axes, rads, m.len_scale_vec, iso
 
-    paths = explore(run)
-    ok = [p for p in paths if p.exc is None]
-    if len(ok) != 1 or len(paths) != 1:
-        return [rec(f"C12/d{d}/model", "error", detail=f"paths={len(paths)} exc={[repr(p.exc) for p in paths]} {paths[0].tb}")]
-    p = ok[0]
-    m, axes, rads, lvec, iso = p.out
-    conds = p.conds
-    for i in range(d):
-        # |iso(t * axis_i)|^2 == (t / anis[i-1])^2   (norm is sqrt of this; compare squares and sign)
-        r = rads[i]
-        r = r[0] if isinstance(r, rnp.ndarray) else r
-        want = abs(t) if i == 0 else abs(t) / an[i - 1]
-        # rads = sqrt(S): prove S == want^2 via trig reduction, then sqrt axioms give equality
-        S = lift(r).arg(0) if (z3.is_app(lift(r)) and lift(r).decl().name() == "sqrt") else None
-        if S is None:
-            out.append(rec(f"C12/d{d}/axis_len[{i}]", "error", detail=f"unexpected radius term {r}"))
-            continue
-        goal, _n = passes.reduced_eq_goal(S, lift(want) * lift(want))
-        out.append(prove(f"C12/d{d}/axis_radius_sq[{i}]", conds, goal, T, witness_vars=wv, replay=rb, note="|isometrize(t*axis_i)|^2 = (t/anis[i-1])^2"))
-        # isometrize(t*axis_i) = (t/anis) * e_i  componentwise
-        for k in range(d):
-            comp = iso[k, i]
-            wantk = (t if i == 0 else t / an[i - 1]) if k == i else 0.0
-            goal, _n = passes.reduced_eq_goal(lift(comp), lift(wantk))
-            out.append(prove(f"C12/d{d}/axis_maps_to_unit[{i}][{k}]", conds, goal, T, witness_vars=wv, replay=rb))
-    # len_scale_vec
-    for i in range(d):
-        want = l if i == 0 else l * an[i - 1]
-        out.append(prove(f"C12/d{d}/len_scale_vec[{i}]", conds, core.eq(lvec[i], want), T, witness_vars=wv, replay=rb))
+    paths = explore(run, max_paths=256)
+    bad_paths = [p for p in paths if p.exc is not None]
+    if bad_paths or not paths:
+        return [rec(f"C12/d{d}/model", "error", detail=f"paths={len(paths)} exc={[repr(p.exc) for p in bad_paths][:3]} {bad_paths[0].tb if bad_paths else ''}")]
+    for pi, p in enumerate(paths):
+        sfx = f"/path{pi}" if len(paths) > 1 else ""
+        m, axes, rads, lvec, iso = p.out
+        conds = p.conds
+        for i in range(d):
+            # |iso(t * axis_i)|^2 == (t / anis[i-1])^2   (norm is sqrt of this; compare squares and sign)
+            r = rads[i]
+            r = r[0] if isinstance(r, rnp.ndarray) else r
+            want = abs(t) if i == 0 else abs(t) / an[i - 1]
+            # rads = sqrt(S): prove S == want^2 via trig reduction, then sqrt axioms give equality
+            S = lift(r).arg(0) if (z3.is_app(lift(r)) and lift(r).decl().name() == "sqrt") else None
+            if S is None:
+                out.append(rec(f"C12/d{d}/axis_len[{i}]{sfx}", "error", detail=f"unexpected radius term {r}"))
+                continue
+            goal, _n = passes.reduced_eq_goal(S, lift(want) * lift(want))
+            out.append(prove(f"C12/d{d}/axis_radius_sq[{i}]{sfx}", conds, goal, T, witness_vars=wv, replay=rb, note="|isometrize(t*axis_i)|^2 = (t/anis[i-1])^2"))
+            # isometrize(t*axis_i) = (t/anis) * e_i  componentwise
+            for k in range(d):
+                comp = iso[k, i]
+                wantk = (t if i == 0 else t / an[i - 1]) if k == i else 0.0
+                goal, _n = passes.reduced_eq_goal(lift(comp), lift(wantk))
+                out.append(prove(f"C12/d{d}/axis_maps_to_unit[{i}][{k}]{sfx}", conds, goal, T, witness_vars=wv, replay=rb))
+        # len_scale_vec
+        for i in range(d):
+            want = l if i == 0 else l * an[i - 1]
+            out.append(prove(f"C12/d{d}/len_scale_vec[{i}]{sfx}", conds, core.eq(lvec[i], want), T, witness_vars=wv, replay=rb))
     return out, {"dim": d}
 
 
